@@ -10,38 +10,31 @@ package types
 
 //@ contract (Height).Compare
 //@   let o = dyn(other, Height)
-//@   requires isType(other, Height)
-//@   ensures lex: result == hcmp(h.RevisionNumber, h.RevisionHeight, o.RevisionNumber, o.RevisionHeight)
-//@   ensures range: result == -1 || result == 0 || result == 1
-//@   nopanic
+//@   ensures lex: isType(other, Height) ==> (result == hcmp(h.RevisionNumber, h.RevisionHeight, o.RevisionNumber, o.RevisionHeight))
+//@   ensures range: isType(other, Height) ==> (result == -1 || result == 0 || result == 1)
 
 //@ contract (Height).LT
 //@   let o = dyn(other, Height)
-//@   requires isType(other, Height)
-//@   ensures result == (hcmp(h.RevisionNumber, h.RevisionHeight, o.RevisionNumber, o.RevisionHeight) == -1)
+//@   ensures isType(other, Height) ==> (result == (hcmp(h.RevisionNumber, h.RevisionHeight, o.RevisionNumber, o.RevisionHeight) == -1))
 
 //@ contract (Height).IsZero
 //@   ensures result == (h.RevisionNumber == 0 && h.RevisionHeight == 0)
 
 //@ contract (Height).LTE
 //@   let o = dyn(other, Height)
-//@   requires isType(other, Height)
-//@   ensures result == (hcmp(h.RevisionNumber, h.RevisionHeight, o.RevisionNumber, o.RevisionHeight) <= 0)
+//@   ensures isType(other, Height) ==> (result == (hcmp(h.RevisionNumber, h.RevisionHeight, o.RevisionNumber, o.RevisionHeight) <= 0))
 
 //@ contract (Height).GT
 //@   let o = dyn(other, Height)
-//@   requires isType(other, Height)
-//@   ensures result == (hcmp(h.RevisionNumber, h.RevisionHeight, o.RevisionNumber, o.RevisionHeight) == 1)
+//@   ensures isType(other, Height) ==> (result == (hcmp(h.RevisionNumber, h.RevisionHeight, o.RevisionNumber, o.RevisionHeight) == 1))
 
 //@ contract (Height).GTE
 //@   let o = dyn(other, Height)
-//@   requires isType(other, Height)
-//@   ensures result == (hcmp(h.RevisionNumber, h.RevisionHeight, o.RevisionNumber, o.RevisionHeight) >= 0)
+//@   ensures isType(other, Height) ==> (result == (hcmp(h.RevisionNumber, h.RevisionHeight, o.RevisionNumber, o.RevisionHeight) >= 0))
 
 //@ contract (Height).EQ
 //@   let o = dyn(other, Height)
-//@   requires isType(other, Height)
-//@   ensures result == (h.RevisionNumber == o.RevisionNumber && h.RevisionHeight == o.RevisionHeight)
+//@   ensures isType(other, Height) ==> (result == (h.RevisionNumber == o.RevisionNumber && h.RevisionHeight == o.RevisionHeight))
 
 //@ contract (Height).String
 //@   ensures result == dec(h.RevisionNumber) + "-" + dec(h.RevisionHeight)
